@@ -29,6 +29,7 @@ def run(ctx) -> None:
     r5_stateless(ctx)
     from . import c05
     c05.r5_reparse_sites(ctx, "C17.R6", placeholders=True)
+    r7_consuming_modifiers(ctx)
 
 
 def r1_renderers_refuse(ctx) -> None:
@@ -286,3 +287,30 @@ def r5_stateless(ctx) -> None:
             else:
                 r.ok("C17.R5", f.qual, "no instance state written", f.loc)
     r.floor("C17.R5", 5)
+
+
+def r7_consuming_modifiers(ctx) -> None:
+    r, prog = ctx.r, ctx.prog
+    r.rule("C17.R7", "modifiers that turn the characters of a value into other characters (base64, base64offset, wide, utf16be, utf16) refuse a value that still contains a placeholder: encoding the text %name% or passing the placeholder through unencoded consumes it without replacement or refusal")
+    M = "sigma.modifiers"
+    for cn in ("SigmaBase64Modifier", "SigmaBase64OffsetModifier"):
+        f = prog.func(f"{M}.{cn}.modify")
+        enc = [c for c in walk_no_nested(f.node) if isinstance(c, ast.Call) and call_name(c) == "bytes"]
+        ok_ = bool(enc) and all(("val.contains_placeholder()", False) in atomic_guards(guards_at(prog, f, c)) for c in enc) \
+            and any(isinstance(n, ast.If) and "val.contains_placeholder()" in unparse(n.test) and isinstance(n.body[0], ast.Raise) and "Sigma" in unparse(n.body[0]) for n in walk_no_nested(f.node))
+        if ok_:
+            r.ok("C17.R7", f.qual, "bytes(val) only for values without placeholders (SigmaValueError otherwise)", f.loc)
+        else:
+            r.violation("C17.R7", f.qual, "bytes(val) without a placeholder check", "f|expand|base64: 'p=%a%' converts to the Base64 of the literal text p=%a%: the placeholder is destroyed when the rule is loaded, neither replaced nor refused", f.loc)
+    for cn in ("SigmaWideModifier", "SigmaUTF16BEModifier", "SigmaUTF16Modifier"):
+        f = prog.func(f"{M}.{cn}.modify")
+        rej = [n for n in walk_no_nested(f.node) if isinstance(n, ast.If)]
+        found = False
+        for n in walk_no_nested(f.node):
+            if isinstance(n, ast.Raise) and "Sigma" in unparse(n) and ("isinstance(item, Placeholder)", True) in atomic_guards(guards_at(prog, f, n)):
+                found = True
+        if found or any("contains_placeholder()" in unparse(n.test) and isinstance(n.body[0], ast.Raise) for n in rej):
+            r.ok("C17.R7", f.qual, "placeholder parts are refused with a Sigma error", f.loc)
+        else:
+            r.violation("C17.R7", f.qual, "else: r.append(item)  # placeholders pass through", "f|expand|wide: 'user=%user%' yields UTF-16 text around a placeholder that is later replaced by single-byte text: a mixture that matches nothing, without any error", f.loc)
+    r.floor("C17.R7", 5)
